@@ -475,7 +475,131 @@ def run_kernel(c):
         ok &= int(p.ind_len) == int(np.prod([l.ind_len for l in legs]))
         o['pipe_facts_ok'] = bool(ok)
         return o
+    if f == 'merge':
+        return run_merge(c)
+    if f == 'itrans':
+        return run_itrans(c)
     raise ValueError(f)
+
+
+# ---- tie of Model/KernelsPyCy2.v iadd_merge_* : what the two-pointer loop of iadd_prefactor_other sees and does
+
+MARK = 1024
+
+
+def run_merge(c):
+    """a.iadd_prefactor_other(1., b) observed from outside: the lexsorted _qdata tables the loop works on, the
+    resulting _qdata and which operand(s) contributed each output row (marker values in the blocks)"""
+    env = Env(c)
+    a = env.array(c['a'])
+    b = env.array(c['b'])
+    if c.get('raw'):
+        # kernel-level case: the tables stay in generated (unsorted) order, the sorted flag is forced, so that
+        # the loop itself (not isort_qdata) is observed on arbitrary tables
+        a._qdata_sorted = True
+        b._qdata_sorted = True
+    else:
+        a.isort_qdata()
+        b.isort_qdata()
+    for i, blk in enumerate(a._data):
+        blk[...] = i + 1
+    for j, blk in enumerate(b._data):
+        blk[...] = MARK * (j + 1)
+    aq = np.asarray(a._qdata).tolist()
+    bq = np.asarray(b._qdata).tolist()
+    shape = [int(l.block_number) for l in a.legs]
+    a.iadd_prefactor_other(1., b)
+    q = np.asarray(a._qdata).tolist()
+    tags = []
+    ok = len(a._data) == len(q)
+    for blk in a._data:
+        v = np.asarray(blk).ravel()
+        if v.size == 0 or not np.all(v == v[0]) or v[0] != int(v[0]):
+            ok = False
+            tags.append([3, 0, 0])
+            continue
+        x = int(v[0])
+        i, j = x % MARK - 1, x // MARK - 1
+        tags.append([0, i, j] if (i >= 0 and j >= 0) else ([1, i, 0] if i >= 0 else [2, 0, j]))
+    return {'aq': aq, 'bq': bq, 'shape': shape, 'q': q, 'tags': tags, 'ok': bool(ok),
+            'b_unchanged': np.asarray(b._qdata).tolist() == bq and all(bool(np.all(x == MARK * (j + 1))) for j, x in enumerate(b._data)),
+            'sorted_flag': bool(a._qdata_sorted), 'dtype': str(a.dtype)}
+
+
+# ---- tie of Model/KernelsPyCy3.v itranspose_* : the full state before and after Array.itranspose
+
+def _lab_code(l):
+    if l is None:
+        return None
+    if l == '':
+        return 0
+    return 1 + ITR_LABELS.index(l)
+
+
+ITR_LABELS = ['a', 'b', 'c', 'd', 'e', 'f', 'g', 'h', 'p', 'q', 'a*', 'b*', 'c*']
+
+
+def _arr_state(a, legids):
+    blocks = []
+    for blk in a._data:
+        blk = np.asarray(blk)
+        base = blk
+        while base.base is not None and isinstance(base.base, np.ndarray):
+            base = base.base
+        item = blk.itemsize
+        if base.flags['C_CONTIGUOUS'] and base.ctypes.data == blk.ctypes.data and all(s % item == 0 and s >= 0 for s in blk.strides):
+            buf = base.ravel()
+            strides = [int(s // item) for s in blk.strides]
+        else:                                      # not expected: describe a contiguous copy
+            buf = np.ascontiguousarray(blk).ravel()
+            strides = [int(np.prod(blk.shape[k + 1:])) for k in range(blk.ndim)]
+        if np.any(buf != np.round(buf)):
+            raise ValueError('non-integer entries')
+        blocks.append([[int(x) for x in buf], [int(x) for x in blk.shape], strides])
+    return {'legs': [legids.get(id(l), 999) for l in a.legs], 'labels': [_lab_code(l) for l in a._labels],
+            'qdata': np.asarray(a._qdata).reshape(len(a._data), -1).tolist() if len(a._data) else [],
+            'blocks': blocks, 'sorted': bool(a._qdata_sorted), 'shape': [int(x) for x in a.shape],
+            'qdata_contig': bool(np.asarray(a._qdata).flags['C_CONTIGUOUS'])}
+
+
+def _arr_obs(a, legids):
+    """layout-free observables (compared between the configurations)"""
+    return {'legs': [legids.get(id(l), 999) for l in a.legs], 'labels': list(a._labels),
+            'qdata': np.asarray(a._qdata).tolist(), 'blocks': [[list(b.shape), num_list(b)] for b in a._data],
+            'sorted': bool(a._qdata_sorted), 'shape': [int(x) for x in a.shape]}
+
+
+def run_itrans(c):
+    env = Env(c)
+    a = env.array(c['a'])
+    if c.get('sort_first'):
+        a.isort_qdata()
+    if c.get('pre_axes') is not None:
+        a.itranspose(c['pre_axes'])                # python: strided views as input of the observed call
+    if c.get('force_labels') is not None:
+        a._labels = list(c['force_labels'])        # breaks the class invariant on purpose (duplicated label)
+    legids = {id(l): 10 + k for k, l in enumerate(a.legs)}
+    pre = _arr_state(a, legids)
+    axes = c['axes']
+    axes_idx = None
+    if axes is not None:
+        try:
+            axes_idx = [int(x) for x in a.get_leg_indices(axes)]
+        except ValueError:
+            axes_idx = [int(x) if isinstance(x, int) and x >= 0 else 99 for x in axes]
+    else:
+        axes_idx = list(reversed(range(a.rank)))
+    out = {'pre': pre, 'axes_idx': axes_idx, 'pre_obs': _arr_obs(a, legids)}
+    try:
+        r = a.itranspose(axes)
+        out['returns_self'] = r is a
+        out['post'] = _arr_state(a, legids)
+        out['post_obs'] = _arr_obs(a, legids)
+    except ValueError as e:
+        out['post'] = None
+        out['error'] = 'ValueError'
+        out['post_obs'] = _arr_obs(a, legids)
+    return out
 
 
 # ------------------------------------------------------------------------------------------------
